@@ -18,6 +18,7 @@ def setup():
     D = world.mod("mokapot.dataset")
     world.rebind(Q, np=symnp)
     world.rebind(D, np=symnp, pd=sympd)
+    symnp.ARGSORT_NONDET[0] = True  # C01 holds for ANY order among tied scores (numpy documents quicksort as unstable)
     return Q, D
 
 
